@@ -229,8 +229,10 @@ FunctionClauses(g, b) == [
     FnIsStatic    |-> b.is_static = B(g.ckind = "function"),
     FnThrows      |-> b.throws = B(Is1(g.throws)),
     FnAccessor    |-> IF FnIsAccessor(g)
-                      THEN /\ b.setter = B(Has(g.setprop)) /\ b.getter = B(~Has(g.setprop))
-                           /\ b.prop_name = (IF Has(g.setprop) THEN g.setprop ELSE g.getprop)
+                      THEN IF Has(g.setprop) /\ Has(g.getprop)          \* both written: not a valid combination, either reading
+                           THEN b.setter + b.getter = 1 /\ b.prop_name = (IF b.setter = 1 THEN g.setprop ELSE g.getprop)
+                           ELSE /\ b.setter = B(Has(g.setprop)) /\ b.getter = B(~Has(g.setprop))
+                                /\ b.prop_name = (IF Has(g.setprop) THEN g.setprop ELSE g.getprop)
                       ELSE b.setter = 0 /\ b.getter = 0 /\ b.index = 0,
     FnWrapsVfunc  |-> b.wraps_vfunc = 0,
     FnAsync       |-> b.is_async = 0 /\ b.sync_or_async = Sentinel /\ b.finish = Sentinel ]
@@ -255,19 +257,21 @@ BuildFunction(g) ==
 (* b: setter/getter raw indices and setter_name/getter_name = name of that method of the container ("" if none)             *)
 PropertyClauses(env, g, b) == [
     PropName      |-> b.name = g.name,
+    PropDeprecated |-> b.deprecated = B(Has(g.deprecated)),
     PropFlags     |-> /\ b.readable = B(g.readable = "" \/ Is1(g.readable)) /\ b.writable = B(Is1(g.writable))
                       /\ b.construct = B(Is1(g.construct)) /\ b.construct_only = B(Is1(g.construct_only)),
     PropTransfer  |-> b.transfer_ownership = B(g.transfer = "full") /\ b.transfer_container_ownership = B(g.transfer = "container"),
     PropSetter    |-> IF Has(g.setter) THEN b.setter # Sentinel /\ b.setter_name = g.setter ELSE b.setter = Sentinel,
     PropGetter    |-> IF Has(g.getter) THEN b.getter # Sentinel /\ b.getter_name = g.getter ELSE b.getter = Sentinel,
     PropType      |-> TypeOK(env, NoCtx, g.type, b.type) ]
-PropertyNames == {"PropName", "PropFlags", "PropTransfer", "PropSetter", "PropGetter", "PropType"}
+PropertyNames == {"PropName", "PropDeprecated", "PropFlags", "PropTransfer", "PropSetter", "PropGetter", "PropType"}
 
 BuildProperty(env, g) ==
     LET si == IF g.setter # "" THEN IndexOf(g.methods, g.setter) % 1024 ELSE Sentinel
         gi == IF g.getter # "" THEN IndexOf(g.methods, g.getter) % 1024 ELSE Sentinel
         tr == IF g.transfer = "full" THEN <<1, 0>> ELSE IF g.transfer = "container" THEN <<0, 1>> ELSE <<0, 0>>   \* absent = none
-    IN [name |-> g.name, readable |-> B(g.readable = "" \/ g.readable = "1"), writable |-> B(g.writable = "1"),
+    IN [name |-> g.name, deprecated |-> 0,       \* start_property does not read deprecated=
+        readable |-> B(g.readable = "" \/ g.readable = "1"), writable |-> B(g.writable = "1"),
         construct |-> B(g.construct = "1"), construct_only |-> B(g.construct_only = "1"),
         transfer_ownership |-> tr[1], transfer_container_ownership |-> tr[2],
         setter |-> si, getter |-> gi, setter_name |-> (IF si = Sentinel THEN "" ELSE NameAt(g.methods, si)),
